@@ -13,6 +13,7 @@ import (
 func init() {
 	rt.Register("C15_checkFilename", VerifHarness_C15_checkFilename)
 	rt.Register("C15_checkFilename_long", VerifHarness_C15_checkFilename_long)
+	rt.Register("C15_deep_traversal", VerifHarness_C15_deep_traversal)
 	rt.Register("C15_getFilePath", VerifHarness_C15_getFilePath)
 	rt.Register("C15_newEncoder", VerifHarness_C15_newEncoder)
 }
@@ -78,6 +79,26 @@ func checkFilenameCase(maxLen int) {
 
 func VerifHarness_C15_checkFilename()      { checkFilenameCase(4) }
 func VerifHarness_C15_checkFilename_long() { checkFilenameCase(6) }
+
+// Deep traversal: k leading ".." components (k around 255/256/257/512, where a
+// narrow counter would wrap) followed by a symbolic tail; every accepted name
+// stays inside, so all of these must be rejected unless the tail climbs back —
+// the oracle decides.
+func VerifHarness_C15_deep_traversal() {
+	k := []int{1, 255, 256, 257, 512}[rt.Choice("depth", 5)]
+	b := make([]byte, 0, 3*k+8)
+	for i := 0; i < k; i++ {
+		b = append(b, '.', '.', '/')
+	}
+	name := string(b) + symName("tail", rt.Choice("len", 3))
+	err := checkFilename(name)
+	if err == nil {
+		rt.Assert(!escapes(name), "accepted name does not escape (oracle)")
+		rt.Reach("accepted")
+	} else {
+		rt.Reach("rejected")
+	}
+}
 
 func VerifHarness_C15_getFilePath() {
 	// relative index path: the target must stay below the index file's directory
